@@ -734,6 +734,20 @@ class QvmCode(BaseCode):
 
         return bytes(code), debug_info
 
+    def check_limits(self):
+        # Operands and section headers have fixed widths (16 bits for
+        # variable slots, frame sizes, literal indices and lengths).
+        # Assembling is the one place that knows them all, so try it.
+        try:
+            bytes(self)
+        except (struct.error, AssertionError, OverflowError):
+            raise CompileError(
+                EC.PROGRAM_TOO_LARGE,
+                'Program too large: too many variables, array '
+                'elements, DATA items or string literals, or a string '
+                'literal that is too long',
+                loc_start=0)
+
     def __bytes__(self):
         sections = []
 
@@ -745,7 +759,8 @@ class QvmCode(BaseCode):
 
         data_section = struct.pack('>H', len(self._data))
         for data_part in self._data.values():
-            data_section += struct.pack('>h', len(data_part))
+            # (read back as an unsigned value by the module loader)
+            data_section += struct.pack('>H', len(data_part))
             for data_item in data_part:
                 if data_item == Empty.value:
                     data_section += struct.pack('>h', -1)
